@@ -57,13 +57,18 @@ Rews == [ r0 |-> <<>>, r1 |-> [x \in {"R1"} |-> [hasFix |-> TRUE, refs |-> {}]],
           r3 |-> [x \in {"R1"} |-> [hasFix |-> TRUE, refs |-> {}]],
           \* rewriters whose rule names an undefined utility: inside nthChild.ofRule, directly
           r4 |-> [x \in {"R1"} |-> [hasFix |-> TRUE, refs |-> {R("U9", "nthof")}]],
-          r5 |-> [x \in {"R1"} |-> [hasFix |-> TRUE, refs |-> {R("U9", "same")}]] ]
+          r5 |-> [x \in {"R1"} |-> [hasFix |-> TRUE, refs |-> {R("U9", "same")}]],
+          \* rewriters applying rewriters: a chain two deep that ends in an undefined id, a chain that resolves, and a
+          \* rewriter the rule never applies whose own transformation names an undefined id
+          r6 |-> ("R1" :> [hasFix |-> TRUE, refs |-> {}, uses |-> {"R2"}]) @@ ("R2" :> [hasFix |-> TRUE, refs |-> {}, uses |-> {"R9"}]),
+          r7 |-> ("R1" :> [hasFix |-> TRUE, refs |-> {}, uses |-> {"R2"}]) @@ ("R2" :> [hasFix |-> TRUE, refs |-> {}, uses |-> {}]),
+          r8 |-> ("R1" :> [hasFix |-> TRUE, refs |-> {}, uses |-> {}]) @@ ("R3" :> [hasFix |-> TRUE, refs |-> {}, uses |-> {"R9"}]) ]
 
 VARIABLES m, u, c, t, f, r
 vars == <<m, u, c, t, f, r>>
 \* the variants added for references inside nthChild.ofRule / in constraints / in rewriters are combined with a
 \* reduced set of the other parts; all earlier variants are combined with each other in full
-ExtM == {"m6", "m7"}  ExtU == {"u13"}  ExtC == {"c4", "c5"}  ExtR == {"r4", "r5"}
+ExtM == {"m6", "m7"}  ExtU == {"u13"}  ExtC == {"c4", "c5"}  ExtR == {"r4", "r5", "r6", "r7", "r8"}
 Small == [m |-> {"m1", "m2"}, u |-> {"u0", "u1", "u2"}, c |-> {"c0", "c1"}, t |-> {"t0", "t1", "t7"}, f |-> {"f0", "f1", "f2"}, r |-> {"r0", "r1"}]
 Init == \/ /\ m \in DOMAIN Mains \ ExtM /\ u \in DOMAIN Utils \ ExtU /\ c \in DOMAIN Cons \ ExtC
            /\ t \in DOMAIN Trans /\ f \in DOMAIN Fixes /\ r \in DOMAIN Rews \ ExtR
